@@ -53,7 +53,7 @@ func VerifC04_TableIDsRemove() {
 // idMap: Set grows in chunks and keeps old entries; Get returns what was set.
 // First index arbitrary, second index at a chunk-relative offset of the first.
 func VerifC18_IDMapSetGet()  { vIDMapSetGet(36) }
-func VerifC18T_IDMapSetGet() { vIDMapSetGet(maskTotalBits) }
+func VerifC18T_IDMapSetGet() { vNoMul = true; vIDMapSetGet(maskTotalBits) }
 
 func vIDMapSetGet(maxA int) {
 	m := newIDMap()
@@ -87,7 +87,7 @@ func vIDMapSetGet(maxA int) {
 // intPool (cache and observer ids): fresh ids are sequential, recycled ids come back LIFO,
 // an id is never handed out twice while in use
 func VerifC05_IntPool()  { vIntPool(4) }
-func VerifC05T_IntPool() { vIntPool(5) }
+func VerifC05T_IntPool() { vNoMul = true; vIntPool(5) }
 
 func vIntPool(steps int) {
 	p := newIntPool[cacheID](2)
